@@ -285,11 +285,19 @@ def run_one(m, repo, verif):
         open(path, "wb").write(orig)
 
 
-def run(workers, limit, files, seed):
+def survivors(path=None):
+    rs = {}
+    for l in open(path or os.path.join(WORK, "results.jsonl")):
+        try: r = json.loads(l); rs[r["id"]] = r
+        except Exception: pass
+    return {i for i, r in rs.items() if r.get("tests") == "pass" and not r.get("caught_by")}
+
+def run(workers, limit, files, seed, only=None, out="results.jsonl"):
     ms = [json.loads(l) for l in open(os.path.join(WORK, "mutants.jsonl"))]
     if files: ms = [m for m in ms if m["file"] in files or os.path.basename(m["file"]) in files]
+    if only is not None: ms = [m for m in ms if m["id"] in only]
     done = set()
-    rp = os.path.join(WORK, "results.jsonl")
+    rp = os.path.join(WORK, out)
     if os.path.exists(rp):
         for l in open(rp):
             try: done.add(json.loads(l)["id"])
@@ -321,9 +329,9 @@ def run(workers, limit, files, seed):
     for t in ts: t.join()
 
 
-def report():
+def report(path="results.jsonl"):
     rs = {}
-    for l in open(os.path.join(WORK, "results.jsonl")):
+    for l in open(os.path.join(WORK, path)):
         r = json.loads(l); rs[r["id"]] = r
     n = len(rs); tk = sum(1 for r in rs.values() if r.get("tests") != "pass")
     caught = [r for r in rs.values() if r.get("caught_by")]
@@ -353,7 +361,10 @@ if __name__ == "__main__":
     files = opt("--files"); files = files.split(",") if files else None
     if a[0] == "gen": gen(files)
     elif a[0] == "run": run(int(opt("--workers", "6")), int(opt("--limit", "0")), files, int(opt("--seed", "1")))
-    elif a[0] == "report": report()
+    elif a[0] == "rerun":
+        # automut.py rerun --from results.jsonl --out results2.jsonl : survivors of an earlier run against the current /verif
+        run(int(opt("--workers", "6")), 0, files, 1, only=survivors(os.path.join(WORK, opt("--from", "results.jsonl"))), out=opt("--out", "results2.jsonl"))
+    elif a[0] == "report": report(opt("--from", "results.jsonl"))
     elif a[0] == "one":
         # automut.py one <id> [--checks C01,C02] : re-run one mutant against the *current* /verif in a private worker
         ms = {json.loads(l)["id"]: json.loads(l) for l in open(os.path.join(WORK, "mutants.jsonl"))}
@@ -367,3 +378,17 @@ if __name__ == "__main__":
             r = run_one(m, repo, verif)
             print(json.dumps({k: v for k, v in r.items() if k != "checks"}), {p_: (c["exit"], c["what"][:140]) for p_, c in r.get("checks", {}).items()})
     elif a[0] == "cleanup": cleanup()
+    elif a[0] == "clean":
+        # automut.py clean C01 C02 … [--seeds 1,2] : run checks of the *current* /verif against an unchanged scratch worktree
+        repo, verif = setup_worker(80 + (os.getpid() % 9))
+        seeds = (opt("--seeds") or "1").split(",")
+        for pid in [x for x in a[1:] if x.startswith("C")]:
+            for sd in seeds:
+                env = {**os.environ, "PYTHONPATH": repo, "OSQ_REPO": repo, "PYTHONHASHSEED": "0", "VERIF_SEED": sd}
+                rc, out = sh([os.path.join(verif, "check"), pid, opt("--tier") or "quick"], cwd=verif, env=env, timeout=7200)
+                print("\n".join(l[:260] for l in out.split("\n") if l.startswith(("[" + pid, "VIOLATION", "KNOWN")) or "Error" in l or "Traceback" in l), flush=True)
+                for l in out.split("\n"):
+                    if l.startswith("VIOLATION") and "replay=" in l:
+                        try:
+                            d = json.load(open(l.split("replay=")[1].split()[0])); print("   ", (d.get("what") or str(d.get("broken")))[:300])
+                        except Exception: pass
